@@ -377,6 +377,13 @@ class wave_function(ABC):
         return hash(tuple(self.__dict__.values()))
 
 
+# functools.singledispatch looks at type(arg).__mro__, where jax tracers are not
+# subclasses of jax.Array: restricted walker batches traced by jit need the same handlers
+for _name in ("calc_overlap", "calc_force_bias", "calc_energy"):
+    _dispatcher = wave_function.__dict__[_name].dispatcher
+    _dispatcher.register(jax.core.Tracer, _dispatcher.dispatch(jax.Array))
+
+
 class wave_function_cpmc(wave_function):
     """This is used in CPMC. Not as well tested and supported as ab initio currently."""
 
